@@ -78,7 +78,7 @@ func c17NewRecorder(flavour string) *c17Recorder {
 	r := &c17Recorder{seen: make(chan *c17Seen, 8)}
 	h := http.HandlerFunc(func(w http.ResponseWriter, req *http.Request) {
 		body, err := io.ReadAll(req.Body)
-		r.seen <- &c17Seen{method: req.Method, path: req.URL.Path, rawQuery: req.URL.RawQuery, proto: req.Proto,
+		r.seen <- &c17Seen{method: req.Method, path: req.URL.EscapedPath(), rawQuery: req.URL.RawQuery, proto: req.Proto,
 			hdr: req.Header.Clone(), body: body, err: err}
 		// a valid, empty Connect unary response, so that the reference client finishes quickly
 		w.Header().Set("Content-Type", "application/proto")
@@ -436,7 +436,8 @@ func TestVerifC17ReqChild(t *testing.T) {
 
 func c17RandomReq(rnd *rand.Rand, tab *c17Payloads, i int) c17ReqDef {
 	verbs := []string{"GET", "POST", "PUT", "DELETE", "PATCH", "OPTIONS", "FOO", ""}
-	paths := []string{"/connectrpc.conformance.v1.ConformanceService/Unary", "/a/b.c/D", "/", "/x_y-z/~t"}
+	// (the path is observed as it was on the request line: escapes are part of "the given path")
+	paths := []string{"/connectrpc.conformance.v1.ConformanceService/Unary", "/a/b.c/D", "/", "/x_y-z/~t", "/a%2Fb/C%3Fd", "/x%7Ey/%41%2f"}
 	d := c17ReqDef{Verb: verbs[rnd.IntN(len(verbs))], Path: paths[rnd.IntN(len(paths))], InlineQ: []c17Hdr{}, RawQ: []c17Hdr{},
 		EncQ: []c17EncQ{}, Hdrs: []c17Hdr{}}
 	qnames := []string{"q", "x", "message", "encoding", "Q", "base64", "a.b", "k-1"}
